@@ -389,7 +389,8 @@ fn exec_congress(target: u32, ops: &mut [COp], rng: &mut Rng) -> Option<Sx> {
                 // the rate the sampler used for this entry: the group's rate (a new group starts at 1.0)
                 let mut sorted = g.clone();
                 sorted.sort();
-                let rate_now = c.s.verif_group_states().into_iter().find(|st| parse_group_key(&st.0) == sorted).map(|st| st.1)?;
+                // (looked up under the sorted key; a sampler that forgot to sort would store it as given)
+                let rate_now = c.s.verif_group_states().into_iter().find(|st| { let k = parse_group_key(&st.0); k == sorted || k == *g }).map(|st| st.1)?;
                 outs.push(sx::tag(0, vec![sx::opt(emitted.map(sx::n)), sx::n(rate_now.to_bits()), sx::n(consumed)]));
             }
             COp::End => {
